@@ -6,6 +6,7 @@ rc=0
 for p in $(python3 -c "import json;print(' '.join(c['property_id'] for c in json.load(open('/verif/MANIFEST.json'))['checks']))"); do
   out=$(timeout 900 /verif/bin/govc check --property $p "$@"); e=$?
   echo "$out" | tail -1
+  if echo "$out" | grep -qE "^STALE|^UNDECIDED|undecided=[1-9]"; then rc=1; echo "!!! check $p: stale or undecided obligations on the tree as it stands"; echo "$out" | grep -E "^STALE|^UNDECIDED" | head -3 | cut -c1-200; fi
   if echo "$out" | grep -q "known finding not reproduced"; then rc=1; echo "!!! check $p: a known finding is no longer reproduced"; echo "$out" | grep "known finding not reproduced"; fi
   if [ $e -ne 0 ]; then rc=1; echo "!!! check $p exited $e on the current tree"; echo "$out" | grep -E "VIOLATION|failed obligation" | head -5; fi
 done
